@@ -30,6 +30,8 @@ class Pool:
     exponents: list = field(default_factory=lambda: ['2', '3', '-1', '1/2'])
     keysets: list = field(default_factory=lambda: [[1, 3], [3, 1]])
     bound: int = 100
+    draws: list = field(default_factory=list)   # (name, type, [[value per draw] per observation])
+    ndraws: int = 1
 
     @property
     def nrows(self):
@@ -49,6 +51,8 @@ class Pool:
                 return f'Node("Numeric", << >>, {tla_q(q(l[1]))}, 0, << >>)'
             if l[0] == 'beta':
                 return f'Node("Beta", << >>, Zero, {l[1]}, << >>)'
+            if l[0] == 'draw':
+                return f'Node("bioDraws", << >>, Zero, {l[1]}, << >>)'
             return f'Node("Variable", << >>, Zero, {l[1]}, << >>)'
 
         bt = ',\n    '.join(
@@ -69,6 +73,7 @@ G_BetaTab == <<
     {bt} >>
 G_VarTab == <<
     {vt} >>
+G_DrawTab == << {", ".join(f'[name |-> {tla_name(n)}, type |-> "{t}", vals |-> <<' + ", ".join("<<" + ", ".join(tla_q(q(v)) for v in obs) + ">>" for obs in vals) + '>>]' for n, t, vals in self.draws)} >>
 G_Leaves == << {", ".join(leaf(l) for l in self.leaves)} >>
 G_UnOps == {sset(self.unops)}
 G_BinOps == {sset(self.binops)}
@@ -86,6 +91,8 @@ CONSTANTS
  Leaves <- G_Leaves
  BetaTab <- G_BetaTab
  VarTab <- G_VarTab
+ DrawTab <- G_DrawTab
+ NDraws = {self.ndraws}
  NRows = {self.nrows}
  NPoints = {self.npoints}
  UnOps <- G_UnOps
